@@ -71,7 +71,8 @@ type Step struct {
 	Pad    int    `json:"pad"`     // payload padded with '.' up to this many bytes (tag first)
 	NoRel  bool   `json:"norel"`   // QoS2: do not send PUBREL after PUBREC
 	// ack (manual)
-	T    string `json:"t"` // "puback" | "pubrec" | "pubcomp"
+	T    string `json:"t"` // "puback" | "pubrec" | "pubcomp" | "pubrel" | "auto"
+	Sel  int    `json:"sel"` // with t = "auto": acknowledge the (sel mod n)-th oldest unacknowledged delivery
 	Code int    `json:"code"`
 	// disconnect
 	// misc
@@ -129,8 +130,17 @@ type actor struct {
 	sent    bool              // has a sentinel subscription
 	done    chan struct{}
 	closedByUs bool
+	unacked []*outEntry // QoS>0 deliveries read and not yet fully acknowledged by us (order of first receipt)
+	limit   int         // min(our Receive Maximum, broker max_inflight): used only to choose the barrier method
 	logmu   sync.Mutex // makes "log a received packet" and "log our own close + mute" atomic
 	muted   bool       // we have ended the connection: what still arrives is no longer observed
+}
+
+type outEntry struct {
+	pid   uint16
+	qos   byte
+	phase string // "pub" | "rel"
+	fresh bool   // (re)received on the current connection: a client acknowledges what it has seen on this connection
 }
 
 // Run is the execution of one scenario.
@@ -140,6 +150,7 @@ type Run struct {
 	Rec    *inproc.Recorder
 	TO     Timeouts
 	actors map[int]*actor
+	lastByCid map[string]*actor
 	amu    sync.Mutex
 	sentN  int
 	Notes  []string
@@ -190,7 +201,7 @@ func BrokerConfig(sc *Scenario) config.Config {
 
 // Execute runs one scenario on a fresh broker and returns the recorded events (first event = reset).
 func Execute(sc *Scenario, extra ...server.Options) (*Run, []inproc.Event) {
-	r := &Run{Sc: sc, Rec: inproc.NewRecorder(), TO: DefaultTimeouts(sc.Slow), actors: map[int]*actor{}}
+	r := &Run{Sc: sc, Rec: inproc.NewRecorder(), TO: DefaultTimeouts(sc.Slow), actors: map[int]*actor{}, lastByCid: map[string]*actor{}}
 	r.Rec.Hooks = sc.Hooks
 	cfg := BrokerConfig(sc)
 	r.Rec.Log(inproc.Event{"e": "reset", "scn": sc.ID, "mode": cfg.MQTT.DeliveryMode, "qq0": cfg.MQTT.QueueQos0Msg,
@@ -364,6 +375,13 @@ func (a *actor) logRecv(p *mw.Packet) {
 		rec.Log(inproc.Event{"e": name, "k": a.k, "pid": int(p.PacketID), "code": int(p.Code)})
 	case mw.PUBREL:
 		rec.Log(inproc.Event{"e": "relout", "k": a.k, "pid": int(p.PacketID)})
+		a.mu.Lock()
+		for _, e := range a.unacked {
+			if e.pid == p.PacketID {
+				e.fresh = true
+			}
+		}
+		a.mu.Unlock()
 		if !a.manual {
 			a.sendAck("pubcomp", p.PacketID, 0)
 		}
@@ -397,6 +415,20 @@ func (a *actor) logRecv(p *mw.Packet) {
 		rec.Log(inproc.Event{"e": "deliver", "k": a.k, "topic": topic, "rawtopic": p.Topic, "alias": alias, "tag": tag,
 			"qos": int(p.QoS), "retain": p.Retain, "dup": p.Dup, "pid": int(p.PacketID), "ids": ids, "msgexp": msgexp,
 			"size": len(p.Raw)})
+		if p.QoS > 0 {
+			a.mu.Lock()
+			found := false
+			for _, e := range a.unacked {
+				if e.pid == p.PacketID {
+					found = true
+					e.fresh = true
+				}
+			}
+			if !found {
+				a.unacked = append(a.unacked, &outEntry{pid: p.PacketID, qos: p.QoS, phase: "pub", fresh: true})
+			}
+			a.mu.Unlock()
+		}
 		if !a.manual {
 			if p.QoS == 1 {
 				a.sendAck("puback", p.PacketID, 0)
@@ -413,6 +445,18 @@ func (a *actor) logRecv(p *mw.Packet) {
 
 func (a *actor) sendAck(t string, pid uint16, code byte) {
 	typ := map[string]byte{"puback": mw.PUBACK, "pubrec": mw.PUBREC, "pubcomp": mw.PUBCOMP}[t]
+	a.mu.Lock()
+	for i, e := range a.unacked {
+		if e.pid == pid {
+			if t == "pubrec" && code < 0x80 {
+				e.phase = "rel"
+			} else {
+				a.unacked = append(a.unacked[:i], a.unacked[i+1:]...)
+			}
+			break
+		}
+	}
+	a.mu.Unlock()
 	a.run.Rec.Log(inproc.Event{"e": "cack", "k": a.k, "t": t, "pid": int(pid), "code": int(code)})
 	_ = a.c.Send(mw.Ack(typ, pid, code))
 }
@@ -468,7 +512,24 @@ func (r *Run) connect(s *Step) {
 	}
 	a := &actor{k: s.K, cid: s.Cid, ver: ver, c: c, run: r, manual: s.ManualAck, alias: map[uint16]string{}, done: make(chan struct{}), nextPid: 100}
 	a.cond = sync.NewCond(&a.mu)
+	a.limit = int(BrokerConfig(r.Sc).MQTT.MaxInflight)
+	if ver == mw.V5 && s.RecvMax > 0 && s.RecvMax < a.limit {
+		a.limit = s.RecvMax
+	}
 	r.amu.Lock()
+	if !s.Clean {
+		// the client side of the session state: deliveries it has not acknowledged yet
+		if o := r.lastByCid[s.Cid]; o != nil {
+			o.mu.Lock()
+			for _, e := range o.unacked {
+				c := *e
+				c.fresh = false
+				a.unacked = append(a.unacked, &c)
+			}
+			o.mu.Unlock()
+		}
+	}
+	r.lastByCid[s.Cid] = a
 	r.actors[s.K] = a
 	r.amu.Unlock()
 	p := mw.Connect(ver, s.Cid, s.Clean, uint16(s.KeepAl))
@@ -659,6 +720,30 @@ func (r *Run) ack(s *Step) {
 		r.pubrel(a, uint16(s.Pid))
 		return
 	}
+	if s.T == "auto" {
+		a.mu.Lock()
+		var cand []*outEntry
+		for _, e := range a.unacked {
+			if e.fresh {
+				cand = append(cand, e)
+			}
+		}
+		if len(cand) == 0 {
+			a.mu.Unlock()
+			return
+		}
+		e := *cand[s.Sel%len(cand)]
+		a.mu.Unlock()
+		switch {
+		case e.qos == 1:
+			a.sendAck("puback", e.pid, 0)
+		case e.phase == "pub":
+			a.sendAck("pubrec", e.pid, byte(s.Code))
+		default:
+			a.sendAck("pubcomp", e.pid, 0)
+		}
+		return
+	}
 	a.sendAck(s.T, uint16(s.Pid), byte(s.Code))
 }
 
@@ -752,13 +837,39 @@ func (r *Run) barrier() {
 	r.sentN++
 	n := r.sentN
 	r.amu.Unlock()
+	settle := false
 	for _, a := range as {
+		a.mu.Lock()
+		full := a.manual && len(a.unacked) >= a.limit
+		a.mu.Unlock()
+		if full {
+			// the window is full by our own doing (we are withholding acknowledgements): nothing can pass the
+			// session queue, so a sentinel cannot be used; a bounded settle time is used instead
+			settle = true
+			continue
+		}
 		tag := fmt.Sprintf("S%d-%d", n, a.k)
 		m := a.mark()
 		r.apipublish("$vs/"+a.cid, 0, false, tag, 0)
-		if _, ok := a.wait(m, r.TO.Barrier, func(p *mw.Packet) bool { return p.Type == mw.PUBLISH && string(p.Payload) == tag }); !ok {
-			r.note("sentinel not received by k=" + fmt.Sprint(a.k))
+		to := r.TO.Barrier
+		if a.manual {
+			// messages still on their way may fill the window before the sentinel: a missing sentinel is not an
+			// anomaly for a client that withholds acknowledgements (the specification excuses a blocked session)
+			to = 120*time.Millisecond + 2*r.TO.Settle
 		}
+		if _, ok := a.wait(m, to, func(p *mw.Packet) bool { return p.Type == mw.PUBLISH && string(p.Payload) == tag }); !ok {
+			if a.manual {
+				settle = true
+			} else {
+				r.note("sentinel not received by k=" + fmt.Sprint(a.k))
+			}
+		}
+	}
+	if settle {
+		for _, a := range as {
+			r.ping(&Step{K: a.k})
+		}
+		time.Sleep(80*time.Millisecond + 2*r.TO.Settle)
 	}
 	// control packets (PUBREL after our PUBREC ...) do not travel through the session queue: a PINGREQ behind
 	// the acknowledgements we have already written flushes them (one connection's packets are handled in order)
